@@ -131,6 +131,10 @@ MUTANTS = [
     ("C18-receive-on-block-state", "I3", "receive runs directly on the block state again",
      [(SQ + "ibc/ics20_transfer.rs", "        let ack = match receive_tokens(&mut delta, &msg.packet).await {\n            Ok(()) => {\n                let (state, events) = delta.apply();\n                for event in events {\n                    state.record(event);\n                }\n                TokenTransferAcknowledgement::success()\n            }\n            Err(e) => {\n                drop(delta);\n",
        "        drop(delta);\n        let ack = match receive_tokens(&mut state, &msg.packet).await {\n            Ok(()) => TokenTransferAcknowledgement::success(),\n            Err(e) => {\n", 0)]),
+    ("C08-right-child-midpoint", "M4", "re-attached right child taken as the midpoint of the remaining nodes",
+     [(MK + "lib.rs",
+       "        let root = complete_root(n.checked_sub(i_plus_one).unwrap());\n        i_plus_one.checked_add(root).unwrap()",
+       "        let rest = n.checked_sub(i_plus_one).unwrap();\n        i_plus_one.checked_add(rest >> 1).unwrap()", 0)]),
     ("C08-proof-fields-public", "K9|witness:merkle:fail_proof_literal", "merkle Proof fields made public: proofs can be assembled unchecked",
      [(MK + "audit.rs",
        "    pub(super) audit_path: Vec<u8>,\n    pub(super) leaf_index: usize,\n    pub(super) tree_size: NonZeroUsize,\n}\n\nimpl Proof {",
@@ -142,6 +146,10 @@ MUTANTS = [
 ]
 
 REFACTORS = [
+    ("C08-geometry-respelled", "", "re-attached right child computed in a different but equal spelling",
+     [(MK + "lib.rs",
+       "        let i_plus_one = i.checked_add(1).unwrap();\n        let root = complete_root(n.checked_sub(i_plus_one).unwrap());\n        i_plus_one.checked_add(root).unwrap()",
+       "        let rest = n.checked_sub(i).unwrap().checked_sub(1).unwrap();\n        complete_root(rest).checked_add(i).unwrap().checked_add(1).unwrap()", 0)]),
     ("C18-bind-result-first", "", "receive_tokens result bound to a local before the match",
      [(SQ + "ibc/ics20_transfer.rs",
        "        let ack = match receive_tokens(&mut delta, &msg.packet).await {",
